@@ -389,3 +389,52 @@ class FortranSolve(FunctionContract):
 _fs = FortranSolve()
 _fs.shards = {'default-range': 6, 'explicit-range': 6}
 CONTRACTS.append(_fs)
+
+
+class FortranInit(FunctionContract):
+    """FortranEngine.__init__: whatever the caller passes - span, engine, strict, dtype, default value, initial values - reaches the model
+    constructor unchanged (so the two back ends start from the same instance state); a missing compiled module is refused for engine='fortran'."""
+    qualname = 'fsic.fortran.FortranEngine.__init__'
+    props = ('C07',)
+
+    def scenarios(self):
+        return ['engine-fortran', 'engine-python', 'no-compiled-module']
+
+    def setup(self, interp, scenario):
+        cls = _F
+        if scenario == 'no-compiled-module':
+            class cls(fsic.fortran.FortranEngine, _Py):        # noqa: N801
+                ENGINE = None
+        obj = SObj(cls, {}, label='instance')
+        e = {'parent': [], 'span': [1, 2, 3], 'scenario': scenario,
+             'given': {'strict': object(), 'dtype': object(), 'default_value': object(), 'Y': object(), 'G': object()},
+             'engine': 'python' if scenario == 'engine-python' else 'fortran', 'inputs': {}}
+
+        def parent_init(interp_, o, args, kwargs, node):
+            e['parent'].append((list(args), dict(kwargs)))
+            return None
+        interp.registry.set_calls({'fsic.core.models.BaseModel.__init__': parent_init})
+        return Call([e['span']], dict(e['given'], engine=e['engine']), self_obj=obj, entry=e)
+
+    def post(self, interp, scenario, call, out):
+        ctx = interp.ctx
+        e = call.entry
+        from fsic.exceptions import InitialisationError
+        if out.kind == 'raise':
+            ctx.prove(z3.BoolVal(scenario == 'no-compiled-module' and exc_class(out.exc) is InitialisationError and not e['parent']),
+                      'InitialisationError_only_for_engine_fortran_without_a_compiled_module', 'raises')
+            return
+        ctx.prove(z3.BoolVal(scenario != 'no-compiled-module'), 'engine_fortran_without_a_compiled_module_is_refused', 'raises')
+        ok = len(e['parent']) == 1
+        ctx.prove(z3.BoolVal(ok), 'model_constructor_called_exactly_once', 'ensures')
+        if ok:
+            args, kw = e['parent'][0]
+            allkw = dict(kw)
+            if args:
+                allkw['span'] = args[0]
+            want = dict(e['given'], span=e['span'], engine=e['engine'])
+            good = len(args) <= 1 and set(allkw) == set(want) and all(allkw[k] is want[k] or allkw[k] == want[k] and isinstance(want[k], str) for k in want)
+            ctx.prove(z3.BoolVal(bool(good)), 'span_engine_options_and_initial_values_reach_the_model_constructor_unchanged', 'ensures', note=str(sorted(allkw)))
+
+
+CONTRACTS.append(FortranInit())
